@@ -197,9 +197,9 @@ theorem reconstruct_sim (h : ReconPre H ps pos O) (sr : Node) :
   obtain ⟨hleft, hright⟩ := leaves_split hk pos.path hple h.under h.two
   -- the initial simulation
   have hsim0 : Sim H (psR H ps (sextetsOf pos.path)) (Walker.newReconstructor sr (specPage pos.path))
-      (⟨[], rstore H ps pos sr, [], []⟩ : TW Node) := by
+      ({ pos := [], store := rstore H ps pos sr, log := [], cpr := [] } : TW Node) := by
     have hrecon : ReconInv H (Walker.newReconstructor sr (specPage pos.path))
-        (⟨[], rstore H ps pos sr, [], []⟩ : TW Node) := by
+        ({ pos := [], store := rstore H ps pos sr, log := [], cpr := [] } : TW Node) := by
       refine ⟨?_, ?_, ?_, ?_⟩
       · intro o ho; cases ho
       · intro _; exact ⟨rfl, fun sp hsp => by cases hsp⟩
